@@ -120,6 +120,8 @@ type Proxy struct {
 	// MaxDelay: each op/event sleeps rng in [0, MaxDelay] ticks; 0 disables the gate.
 	MaxDelay int
 	Tick     time.Duration
+	// ReplyDelay: every third write additionally delays its reply by 1..MaxDelay ticks.
+	ReplyDelay bool
 	// OnCommit, if set, is called under the lock for every commit (online monitors).
 	OnCommit func(c Commit, p *Proxy)
 
@@ -182,6 +184,28 @@ func (p *Proxy) gate(ctx context.Context, op string) {
 
 	if p.TraceOps {
 		p.ops = append(p.ops, Actor(ctx)+":"+op)
+	}
+	p.mu.Unlock()
+
+	if d > 0 {
+		select {
+		case <-time.After(time.Duration(d) * p.Tick):
+		case <-ctx.Done():
+		}
+	}
+}
+
+// replyDelay delays the reply of a write (only when ReplyDelay is set): the caller learns about its commit late, so other
+// actors' commits can land between a helper's write and its next step (e.g. between a teardown mark and the watch that follows).
+func (p *Proxy) replyDelay(ctx context.Context) {
+	if !p.ReplyDelay || p.MaxDelay <= 0 {
+		return
+	}
+
+	p.mu.Lock()
+	d := 0
+	if p.rng.IntN(3) == 0 {
+		d = 1 + p.rng.IntN(p.MaxDelay)
 	}
 	p.mu.Unlock()
 
@@ -288,6 +312,13 @@ func (p *Proxy) List(ctx context.Context, kind resource.Kind, opts ...state.List
 
 // Create implements state.CoreState.
 func (p *Proxy) Create(ctx context.Context, r resource.Resource, opts ...state.CreateOption) error {
+	err := p.createInner(ctx, r, opts...)
+	p.replyDelay(ctx)
+
+	return err
+}
+
+func (p *Proxy) createInner(ctx context.Context, r resource.Resource, opts ...state.CreateOption) error {
 	p.gate(ctx, "create")
 
 	if err := ctx.Err(); err != nil {
@@ -318,6 +349,13 @@ func (p *Proxy) Create(ctx context.Context, r resource.Resource, opts ...state.C
 
 // Update implements state.CoreState.
 func (p *Proxy) Update(ctx context.Context, r resource.Resource, opts ...state.UpdateOption) error {
+	err := p.updateInner(ctx, r, opts...)
+	p.replyDelay(ctx)
+
+	return err
+}
+
+func (p *Proxy) updateInner(ctx context.Context, r resource.Resource, opts ...state.UpdateOption) error {
 	p.gate(ctx, "update")
 
 	if err := ctx.Err(); err != nil {
@@ -354,6 +392,13 @@ func (p *Proxy) Update(ctx context.Context, r resource.Resource, opts ...state.U
 
 // Destroy implements state.CoreState.
 func (p *Proxy) Destroy(ctx context.Context, ptr resource.Pointer, opts ...state.DestroyOption) error {
+	err := p.destroyInner(ctx, ptr, opts...)
+	p.replyDelay(ctx)
+
+	return err
+}
+
+func (p *Proxy) destroyInner(ctx context.Context, ptr resource.Pointer, opts ...state.DestroyOption) error {
 	p.gate(ctx, "destroy")
 
 	if err := ctx.Err(); err != nil {
